@@ -104,9 +104,28 @@ def run(rep):
         rep.lost("NO-DROP", "NO-DROP/anchor", "parser::parse_mapping")
     else:
         n_calls = 0
-        for n in walk(pm.body):
+
+        def only_element(n, path):
+            """`v.pop()` where v is known to hold exactly one element (`match v.len() { 1 => .. }` / `if v.len() == 1`) and the popped value is used"""
+            vid = q.base_var(n["args"][0])
+            if vid is None or not (path and path[-1].get("k") not in ("Block",)):
+                return False
+            for e in q.context(path, n):
+                if e[0] == "arm" and call_is(peel(e[2]), "::len") and q.base_var(peel(e[2])["args"][0]) == vid and facts.strip_ref(e[1]).get("k") == "Const" and facts.strip_ref(e[1]).get("v", "").split("_")[0] == "1":
+                    return True
+                if e[0] == "if" and e[2]:
+                    for c in q.conj(e[1]):
+                        c = peel(c)
+                        if c.get("k") == "Binary" and c["op"] == "Eq" and call_is(peel(c["lhs"]), "::len") and q.base_var(peel(c["lhs"])["args"][0]) == vid and facts.lit(c["rhs"]) == ("i", 1):
+                            return True
+            return False
+        for n, path in walk_with_path(pm.body):
             if n.get("k") == "Call" and n.get("fn") and n.get("args"):
                 n_calls += 1
+                if n["fn"].endswith("mem::take") and path and not (path[-1].get("k") == "Block" and any(st["k"] == "Expr" and peel(st["e"]) is n for st in path[-1]["stmts"])):
+                    continue  # the whole vector is moved out and used: nothing is dropped
+                if n["fn"].endswith("::pop") and only_element(n, path):
+                    continue
                 if n["fn"].endswith(DROPPERS) and "Vec<" in n["args"][0].get("ty", "") + " " + n["args"][0].get("ty", ""):
                     rep.bad("NO-DROP", "NO-DROP/parse_mapping/" + n["fn"].split("::")[-1], n["sp"], "no call that can drop list members", show(n)[:80])
                 if n["fn"].endswith("::clear"):
